@@ -60,7 +60,7 @@ def build(spec):
     from msdm.core.table.tableindex import TableIndex
     k = spec["kind"]
     ev = [dec(e) for e in spec["events"]]
-    ws = [fl(w) for w in spec.get("weights", [])]
+    ws = [float("-inf") if w == "-inf" else fl(w) for w in spec.get("weights", [])]
     if k == "dict":
         return DictDistribution(dict(zip(ev, ws)))      # later duplicates overwrite
     if k == "pairs":
